@@ -31,6 +31,8 @@ func Main(args []string) int {
 			return checkC10()
 		case "C05mon":
 			return checkC05()
+		case "C18atom":
+			return checkC18()
 		}
 	case "replay":
 		if len(args) < 2 {
@@ -790,6 +792,15 @@ func checkSimple(prop, harness, evName string) int {
 		if tier == "thorough" {
 			levels = append(levels, Bounds{4, 0, 4})
 		}
+	case "C18atom":
+		for _, cf := range c18Configs(tier) {
+			cf := cf
+			jobs = append(jobs, Job{Harness: harness, C18: &cf})
+		}
+		levels = []Bounds{{0, 0, 0}, {1, 0, 1}, {2, 0, 2}, {3, 0, 3}}
+		if tier == "thorough" {
+			levels = append(levels, Bounds{4, 0, 4}, Bounds{5, 0, 5})
+		}
 	case "C05mon":
 		for _, cf := range c05Configs(tier) {
 			cf := cf
@@ -901,6 +912,13 @@ func simpleAssumptions(h string) []string {
 			"scheduling points: Replica.RLock/Lock (Go's writer preference modelled: a Lock call announces itself first), volume.rmLock, revisionLock; file-system calls between two points run atomically",
 			"the mode a write was applied in is the value of Replica.mode at the moment the write acquired Replica.RLock (recorded by a scheduler hook; SetReplicaMode needs the write lock), so the expected count is exact",
 			"persisted value: read back from the revision.counter block after every execution; close+reopen once per explored subtree (job), not per execution",
+		}
+	case "C18atom":
+		return []string{
+			"real controller.Controller (whole package under the scheduler: Controller.RWMutex, MultiWriterAt/replicator fan-out goroutines and wait groups, Controller.monitoring goroutines) with real *remote.Remote backends whose REST and data calls go in-process to engine E-B's model replica nodes (bound to the real replica by E-B's conformance check)",
+			"each execution builds its own cluster inside the scheduler (register x2, start, add+sync+verify) without exploring that prefix; then the calls run concurrently; map iterations of package controller are in key order",
+			"reference = every sequential order of the same calls, each run to quiescence, AddReplica counting as two events (check+factory.Create | attach) as in E-B's event alphabet; monitor failure = an error put on the backend's monitor channel; the StopMonitoring branch of monitorPing is played by a stub thread",
+			"outcome = per-call results (ok/err, n, data digest) + canonical final state (controller membership, modes, ReadOnly, RW count, checkpoint, reader/writer counts; every node's state, mode, revision counter, chain with generated names renamed, checkpoint, data digest)",
 		}
 	case "C05mon":
 		return []string{
